@@ -30,6 +30,7 @@ fn f64_inc_by_step(k: u32) {
 #[kani::unwind(7)]
 #[kani::stub(std::sync::atomic::Atomic::<u64>::load, env::env_load)]
 #[kani::stub(std::sync::atomic::Atomic::<u64>::compare_exchange_weak, env::env_cas_weak)]
+#[kani::stub(std::sync::atomic::Atomic::<u64>::compare_exchange, env::env_cas_strong)]
 #[kani::stub(std::sync::atomic::Atomic::<u64>::store, env::env_store)]
 #[kani::stub(std::sync::atomic::Atomic::<u64>::fetch_add, env::env_fetch_add)]
 #[kani::stub(std::sync::atomic::Atomic::<u64>::swap, env::env_swap)]
@@ -47,6 +48,7 @@ fn c01_f64_inc_by_step_k1() {
 #[kani::unwind(9)]
 #[kani::stub(std::sync::atomic::Atomic::<u64>::load, env::env_load)]
 #[kani::stub(std::sync::atomic::Atomic::<u64>::compare_exchange_weak, env::env_cas_weak)]
+#[kani::stub(std::sync::atomic::Atomic::<u64>::compare_exchange, env::env_cas_strong)]
 #[kani::stub(std::sync::atomic::Atomic::<u64>::store, env::env_store)]
 #[kani::stub(std::sync::atomic::Atomic::<u64>::fetch_add, env::env_fetch_add)]
 #[kani::stub(std::sync::atomic::Atomic::<u64>::swap, env::env_swap)]
@@ -64,6 +66,7 @@ fn c01_f64_inc_by_step_k2() {
 #[kani::unwind(13)]
 #[kani::stub(std::sync::atomic::Atomic::<u64>::load, env::env_load)]
 #[kani::stub(std::sync::atomic::Atomic::<u64>::compare_exchange_weak, env::env_cas_weak)]
+#[kani::stub(std::sync::atomic::Atomic::<u64>::compare_exchange, env::env_cas_strong)]
 #[kani::stub(std::sync::atomic::Atomic::<u64>::store, env::env_store)]
 #[kani::stub(std::sync::atomic::Atomic::<u64>::fetch_add, env::env_fetch_add)]
 #[kani::stub(std::sync::atomic::Atomic::<u64>::swap, env::env_swap)]
@@ -271,4 +274,28 @@ fn c01_f64_sequential_functional() {
         a.inc_by(d);
         assert!(feq(a.get(), f64::from_bits(cb) + d), "C01.f64.inc_by sequential: value is not c + d");
     }
+}
+
+//@ id: c01_f64_inc_by_never_gives_up_k66
+//@ prop: C01, C11
+//@ tier: quick
+//@ strength: complete in values and interference; the environment may refuse up to K=66 consecutive exchanges (weak or strong), unwinding assertion on
+//@ fn: atomic64::AtomicF64::inc_by
+//@ obligation: however often the exchange is refused (up to 66 times here), inc_by returns only after exactly one successful exchange -- it never gives up and drops the increment after a bounded number of attempts
+#[kani::proof]
+#[kani::unwind(70)]
+#[kani::stub(std::sync::atomic::Atomic::<u64>::load, env::env_load)]
+#[kani::stub(std::sync::atomic::Atomic::<u64>::compare_exchange_weak, env::env_cas_weak)]
+#[kani::stub(std::sync::atomic::Atomic::<u64>::compare_exchange, env::env_cas_strong)]
+#[kani::stub(std::sync::atomic::Atomic::<u64>::store, env::env_store)]
+#[kani::stub(std::sync::atomic::Atomic::<u64>::fetch_add, env::env_fetch_add)]
+#[kani::stub(std::sync::atomic::Atomic::<u64>::swap, env::env_swap)]
+fn c01_f64_inc_by_never_gives_up_k66() {
+    env::reset(66);
+    env::count_only();
+    let a = AtomicF64::new(kani::any());
+    let d: f64 = kani::any();
+    a.inc_by(d);
+    assert!(env::cas_ok() == 1, "C01.f64.inc_by: returned without exactly one successful exchange (the increment is dropped or doubled when the exchange keeps being refused)");
+    kani::cover!(env::cas_fails() == 66);
 }
